@@ -13,7 +13,9 @@ EXTENDS Pickle
 
 CONSTANTS N, K, L, Mode
 
-Atoms == { Atom("none", ""), Atom("bool", "True"), Atom("int", "7"), Atom("int", "300"), Atom("str", "a") }
+\* the larger scopes use fewer atoms (the structure, not the atom, is what they vary)
+Atoms == IF N * K >= 6 THEN { Atom("int", "7"), Atom("str", "a") }
+         ELSE { Atom("none", ""), Atom("bool", "True"), Atom("int", "7"), Atom("int", "300"), Atom("str", "a") }
 NodeIds == 1..N
 Items == Atoms \cup { Ref(i) : i \in NodeIds }
 Types == {"list", "dict", "set", "tuple", "host"}
